@@ -170,6 +170,12 @@ impl PhoneticSuggestion {
                 self.suggestions.push(Rank::emoji(emoji.to_owned()));
                 // Mark that we have added the typed text already (as the emoticon).
                 typed_added = true;
+            } else if let Some(emojis) = data.get_emoji_by_name(term) {
+                // The whole text is an emoji name, some names have punctuation marks in them (e.g. `+1`).
+                let emojis = emojis
+                    .zip(1..)
+                    .map(|(s, r)| Rank::emoji_ranked(s.to_owned(), r));
+                self.suggestions.extend(emojis);
             } else if let Some(emojis) = data.get_emoji_by_name(string.word()) {
                 // Emoji addition with it's name
                 // Add preceding and trailing meta characters.
